@@ -310,6 +310,49 @@ def _mk(args):
     return acts.make(a, inp, i)
 
 
+def source_literals(limit=80):
+    """A dictionary taken from the code under test (the classic fuzzing trick): every short string literal of the
+    library's modules, with format / percent templates instantiated with small numbers.  Text that the code itself
+    treats specially (markers, placeholders, separators, key names) is exactly what a passphrase or mnemonic is never
+    expected to contain."""
+    import ast
+    import glob
+    import re
+    out = []
+    order = ["paper_wallet.py", "base_wallet.py", "bip39.py", "bip85.py", "wallet_utils.py", "helper.py", "keys.py", "bip32.py", "script.py"]
+    files = sorted(glob.glob(os.path.join(REPO, "btc_hd_wallet", "*.py")),
+                   key=lambda f: (order.index(os.path.basename(f)) if os.path.basename(f) in order else len(order), f))
+    for fn in files:
+        if fn.endswith(("bip39_wordlist.py", "op.py")):
+            continue
+        try:
+            tree = ast.parse(open(fn, encoding="utf-8").read())
+        except Exception:
+            continue
+        for node in ast.walk(tree):
+            if isinstance(node, ast.Constant) and isinstance(node.value, str) and 2 <= len(node.value) <= 24 and "\n" not in node.value:
+                out.append(node.value)
+            elif isinstance(node, ast.JoinedStr):
+                parts = [v.value if isinstance(v, ast.Constant) else "{}" for v in node.values]
+                if 2 <= len("".join(parts)) <= 24:
+                    out.append("".join(parts))
+    seen, res = set(), []
+    for t in out:
+        variants = [t]
+        if "{" in t or "%" in t:
+            for k in (0, 1, 2):
+                v = re.sub(r"\{[^{}]*\}", str(k), t)
+                v = re.sub(r"%[0-9.]*[dsxXr]", str(k), v)
+                variants.append(v)
+        for v in variants:
+            if v not in seen and not v.isalnum():           # plain words are ordinary passphrases anyway
+                seen.add(v)
+                res.append(v)
+    # instantiated templates first (a placeholder scheme shows up as one), then the rest
+    res.sort(key=lambda v: 0 if any(ch.isdigit() for ch in v) else 1)
+    return res[:limit]
+
+
 def rounds(ctx, gen_inputs, n):
     """n independent draws of a property's input families (the generator's random parts differ per draw, its
     enumerated parts repeat and are dropped): the thorough tier's way of widening every sampled family"""
